@@ -3,12 +3,18 @@ import itertools, random
 
 UNIVERSE = [0, 32768, 512, 1, 256, 33280]   # same as spec/BankMapMC.tla Keys
 
+# instrument indices (unsigned in the API; negative = 2^32 - n): the valid corners, the first indices past the 128 entries of a
+# bank, byte / word / sign boundaries, UINT_MAX.  spec/BankMap.tla InsIdxOk: only 0..127 exist
+IDX_OK = [0, 1, 2, 63, 126, 127]
+IDX_BAD = [128, 129, 255, 256, 1000, 65536, 2147483647, -2147483647, -1]
+
 def mc_ops():
     ops = [{"o": "get", "key": k, "mode": "create"} for k in UNIVERSE]
     ops += [{"o": "get", "key": k, "mode": "creatert"} for k in UNIVERSE]
     ops += [{"o": "remove", "key": k} for k in UNIVERSE]
     ops += [{"o": "setins", "key": UNIVERSE[i], "idx": 0, "tok": i + 1} for i in range(3)]
     ops += [{"o": "reserve", "n": 5}, {"o": "reserve", "n": 9}, {"o": "clear"}, {"o": "get", "key": 0, "mode": "find"}]
+    ops += [{"o": "setins", "key": UNIVERSE[0], "idx": 128, "tok": 9}]
     return ops
 
 def key(p, msb, lsb):
@@ -39,7 +45,10 @@ def random_history(rng, length=40):
         elif r < 0.55: h.append({"o": "get", "key": k, "mode": "find"})
         elif r < 0.75:
             h.append({"o": "remove", "key": k})
-        elif r < 0.90: h.append({"o": "setins", "key": k, "idx": rng.choice([0, 1, 127]), "tok": rng.randrange(1, 1000)})
+        elif r < 0.90:
+            # mostly valid indices; a quarter of the writes / reads address an instrument beyond the end of the bank
+            idx = rng.choice([0, 1, 127]) if rng.random() < 0.75 else rng.choice(IDX_BAD)
+            h.append({"o": "setins" if rng.random() < 0.85 else "getins", "key": k, "idx": idx, "tok": rng.randrange(1, 1000)})
         elif r < 0.95: h.append({"o": "reserve", "n": rng.choice([0, 3, 6, 12, 30, 64])})
         else:
             ks = rng.sample(pool, min(len(pool), rng.choice([2, 3, 6])))
@@ -54,3 +63,46 @@ def exhaustive(depth, initcap=0):
     init = [{"o": "init", "probe": UNIVERSE}] + ([{"o": "reserve", "n": initcap}] if initcap else [])
     for seq in itertools.product(ops, repeat=depth):
         yield init + list(seq)
+
+
+def edge_index_history(rng, length=40):
+    """Instrument API at and beyond the end of a bank (C02 / C16): a handful of banks created one after the other (so that they
+    lie in neighbouring slots of one allocation block of the map), filled through opn2_setInstrument at the valid corner indices,
+    then writes and reads at the indices around and beyond the end of EVERY bank - also the bank created last and, after a
+    removal, banks whose neighbour slot is free - mixed with valid writes.  Every step is followed by the look-up, iteration and
+    read-back of all banks (probe = all keys, read-back indices = IDX_OK), so both the return value (-1, model: InsIdxOk) and a
+    change of any bank are visible to the BankTrace monitors."""
+    nb = rng.choice([2, 2, 3, 4, 5, 8])
+    keys = []
+    while len(keys) < nb:
+        r = rng.random()
+        k = key(rng.randrange(2), rng.choice([0, 1, 2, 127]), rng.choice([0, 1, 127])) if r < 0.7 else key(rng.randrange(2), rng.randrange(128), rng.randrange(128))
+        if k not in keys:
+            keys.append(k)
+    h = [{"o": "init", "probe": sorted(keys), "rbi": IDX_OK}]
+    if rng.random() < 0.4:
+        h.append({"o": "reserve", "n": rng.choice([nb, nb + 1, 4, 9])})
+    for k in keys:
+        h.append({"o": "get", "key": k, "mode": rng.choice(["create", "create", "creatert"])})
+    present = list(keys)
+    for k in keys:
+        for idx in rng.sample(IDX_OK, rng.choice([1, 2, 3])):
+            h.append({"o": "setins", "key": k, "idx": idx, "tok": rng.randrange(1, 1000)})
+    bad = list(IDX_BAD) + [128, 128, 129]
+    while len(h) < length:
+        r = rng.random()
+        k = rng.choice(keys)
+        if r < 0.55:
+            h.append({"o": "setins", "key": k, "idx": rng.choice(bad), "tok": rng.randrange(1, 1000)})
+        elif r < 0.65:
+            h.append({"o": "getins", "key": k, "idx": rng.choice(bad + [127, 0])})
+        elif r < 0.85:
+            h.append({"o": "setins", "key": k, "idx": rng.choice(IDX_OK), "tok": rng.randrange(1, 1000)})
+        elif r < 0.92:
+            h.append({"o": "remove", "key": k})
+        else:
+            h.append({"o": "get", "key": k, "mode": "create"})
+    # every bank once more at the first index past its end, first to last and last to first
+    for k in keys + keys[::-1]:
+        h.append({"o": "setins", "key": k, "idx": 128, "tok": rng.randrange(1, 1000)})
+    return h
